@@ -56,3 +56,17 @@ func vErrString(err error) string {
 	}
 	return err.Error()
 }
+
+// vObsErr records the outcome class of a parse (not the message text: the
+// engine stubs the standard library's quoting inside strconv error texts).
+func vObsErr(v *V, err error) {
+	if err == nil {
+		v.ObserveStr("err", "nil")
+		return
+	}
+	if t, ok := vErrType(err); ok {
+		v.ObserveStr("err", t.String())
+		return
+	}
+	v.ObserveStr("err", "other")
+}
